@@ -136,6 +136,37 @@ def run(rep, tier, seed, replay, unordered=UNORDERED, pid=PID):
                 rep.violation("implementation differs from the proved model (mapper engine, random config)",
                               dict(yaml=GM.to_yaml(cfg), query=[q[0], q[1].decode("latin1")] if q else None, impl=i[k], model=m[k]),
                               no_input=True)
+    # sizes outside the small alphabets: rules of 8-200 components, 300 rules in one configuration, 300-byte components
+    scases, smeta = [], []
+    for n in (8, 31, 32, 33, 63, 64, 65, 100, 200):
+        pre = [b"c%d" % k for k in range(1, n)]
+        rules = [GM.rule(b".".join(pre + [b"*"]), b"gen_$1", help=b"r0", labels=[(b"c1", b"$1")]), GM.rule(b".".join(pre + [b"leaf"]), b"leaf", help=b"r1"),
+                 GM.rule(b"short.*", b"short_$1", help=b"r2"), GM.rule(b".".join([b"*"] * n), b"stars", help=b"r3", labels=[(b"cn", b"$%d" % n)])]
+        for order in (rules, rules[::-1]):
+            cfg = (GM.defaults(disable_ordering=True) if unordered else None, [dict(r) for r in order])
+            qs = [b".".join(pre + [b"leaf"]), b".".join(pre + [b"other"]), b"short.x", b".".join([b"q"] * n), b".".join(pre), b".".join(pre + [b"a", b"b"])]
+            scases.append(GM.case_line("none", 0, [GM.load_op(cfg)] + [GM.query_op(t, q) for q in qs for t in ("counter", "observer")]))
+            smeta.append("rules of %d components" % n)
+    many = [GM.rule(b"m%d.*" % k, b"many_%d_$1" % k, help=b"r%d" % k) for k in range(300)]
+    scases.append(GM.case_line("lru", 50, [GM.load_op((GM.defaults(disable_ordering=True) if unordered else None, many))] +
+                               [GM.query_op("counter", b"m%d.x%d" % (k, k)) for k in list(range(0, 300, 7)) * 2] + [GM.query_op("gauge", b"m300.x")]))
+    smeta.append("300 rules")
+    longc = b"L" * 300
+    scases.append(GM.case_line("none", 0, [GM.load_op((None, [GM.rule(longc + b".*." + longc, b"long_$1", help=b"r0", labels=[(b"v1", b"$1")])])),
+                                           GM.query_op("counter", longc + b"." + longc + b"." + longc), GM.query_op("counter", longc + b".x." + longc[:-1])]))
+    smeta.append("300-byte components")
+    simpl, smodel = ME.run_cases(pid, scases, tag="sizes")
+    rep.count(sum(len(x) for x in simpl))
+    for what, case, i, m in zip(smeta, scases, simpl, smodel):
+        if i != m:
+            nbad += 1
+            k = next((k for k in range(min(len(i), len(m))) if i[k] != m[k]), 0)
+            if len(rep.violations) < 5:
+                rep.violation("implementation differs from the proved model (mapper engine, %s)" % what, dict(case=case[:1500], op_index=k, impl=i[k][:400], model=m[k][:400]))
+    if not replay:
+        # a cached answer is filed under the full (type, name) pair: otherwise a rule that does not match a name could answer for it
+        import props.c13 as c13
+        c13.cache_keys(rep, rnd, 1500 if tier == "quick" else 30000)
     # irrelevant rules: inserting / removing a non-matching rule never changes the winner (on the implementation)
     if not unordered:
         icases, imeta = [], []
